@@ -113,8 +113,9 @@ func GetJournalctlLogs(path string, since string, useFile bool) (io.Reader, erro
 	}
 
 	// A truncated or garbled line must not hide the other records
+	// (nor a well-formed line of another shape: MESSAGE as a byte array, a bare string)
 	jctlRaw = slices.DeleteFunc(jctlRaw, func(line string) bool {
-		return !json.Valid([]byte(line))
+		return json.Unmarshal([]byte(line), &systemdLog{}) != nil
 	})
 	jctlStr := "[" + strings.Join(jctlRaw, ",\n") + "]"
 	if err := json.Unmarshal([]byte(jctlStr), &logs); err != nil {
